@@ -33,10 +33,11 @@ def ali_tensor(uid, T, salt):
     return torch.tensor(out, dtype=torch.long).reshape(T)
 
 
-def ref_tensor(uid, R, T, two_d, salt):
-    """Tokens encode the utterance: 64*(uid+1) + j."""
+def ref_tensor(uid, R, T, two_d, salt, vocab=None):
+    """Tokens encode the utterance: 64*(uid+1) + j; or, with vocab=V, are drawn from range(V)
+    so that token classes recur within and across utterances."""
     r = random.Random(uid * 1299709 + salt)
-    toks = [64 * (uid + 1) + j for j in range(R)]
+    toks = [64 * (uid + 1) + j for j in range(R)] if vocab is None else [r.randrange(vocab) for _ in range(R)]
     if not two_d:
         return torch.tensor(toks, dtype=torch.long).reshape(R)
     rows = []
